@@ -180,15 +180,22 @@ class Merger:
                     else self.config.set_merge_mode(node_coord)
                     if isinstance(val, CommentedSet)
                     else self.config.aoh_merge_mode(node_coord)
+                    if (isinstance(val, CommentedSeq) and len(val) > 0
+                        and isinstance(val[0], CommentedMap))
+                    else self.config.array_merge_mode(node_coord)
+                    if isinstance(val, CommentedSeq)
+                    else self.config.scalar_merge_mode(node_coord)
                 )
                 self.logger.debug("Merger::_merge_dicts:  Got merge mode, {}."
                                   .format(merge_mode))
                 if merge_mode in (
-                    HashMergeOpts.LEFT, AoHMergeOpts.LEFT, SetMergeOpts.LEFT
+                    HashMergeOpts.LEFT, AoHMergeOpts.LEFT, SetMergeOpts.LEFT,
+                    ArrayMergeOpts.LEFT
                 ):
                     continue
                 if merge_mode in (
-                    HashMergeOpts.RIGHT, AoHMergeOpts.RIGHT, SetMergeOpts.RIGHT
+                    HashMergeOpts.RIGHT, AoHMergeOpts.RIGHT, SetMergeOpts.RIGHT,
+                    ArrayMergeOpts.RIGHT
                 ):
                     self.logger.debug(
                         "Merger::_merge_dicts:  Overwriting key, {}, at path,"
